@@ -10,6 +10,7 @@ open PubModel.C11
 #print axioms build_order_decl_independent
 #print axioms load_ok_topological
 #print axioms build_order
+#print axioms targets_resolve
 #print axioms gen_dedup_dirs
 #print axioms gen_load1_shape
 #print axioms gen_register_shape
